@@ -299,6 +299,8 @@ C07_NoFuture ==
     /\ \A i \in 1..Len(flog) : flog[i].t <= Ev.t
     /\ \A i \in 1..Len(allocs) : allocs[i].t <= Ev.t
 
-\* ---- C18 (i) ---- for a fixed configuration the next step is a function of the state
-Deterministic == TRUE    \* checked structurally: TLC reports #states = sum of the run lengths (no branching)
+\* ---- C18 (i) ----
+\* For a fixed configuration the next step is a function of the state: every step above is a conjunction of
+\* equations x' = f(state) without any choice, so each run is ONE behaviour.  TLC confirms it structurally: the
+\* number of distinct states of MC_Session equals the sum of the run lengths and no state has two successors.
 =============================================================================
